@@ -569,7 +569,7 @@ def rules(model: Model, tier: str) -> List[RuleResult]:
     I = RuleResult(PROP, "C12-I", "result == sum_{i<n} w_i f(x_i): full index coverage, weight/node pairing, parameters forwarded", min_instances=3)
     Sr = RuleResult(PROP, "C12-S", "infinite limits: f(g(t)) g'(t) at one t, limits through g^-1, consistent (g, g', g^-1)", min_instances=8)
     N = RuleResult(PROP, "C12-N", "limits converted with as_tensor(dtype, device of the integrand) before use", min_instances=3)
-    P = RuleResult(PROP, "C12-P", "tuple-valued integrands: flatten in the wrapper, pack the result, one packer", min_instances=3)
+    P = RuleResult(PROP, "C12-P", "tuple-valued integrands: flatten in the wrapper, pack the result, one packer; packer segments tile the flat vector, single-exit inverse pair", min_instances=5)
     M = RuleResult(PROP, "C12-M", "the rule is reached through the dispatch table with the caller's options", min_instances=2)
     fwd, table, callsite = _dispatch(model)
     if "leggauss" not in table:
@@ -592,4 +592,6 @@ def rules(model: Model, tier: str) -> List[RuleResult]:
     _affine_and_sum(model, A, I, impl, tier)
     _substitution(model, Sr, N, fwd, callsite)
     _tuple_out(model, P)
+    from .c07 import _tensor_packer
+    _tensor_packer(model, P)
     return [A, I, Sr, N, P, M]
